@@ -316,6 +316,10 @@ def fill_of(e):
             return untyped(d[2]), byte_of(e[2][0])
         if d[0] == "count":
             return untyped(d[1]), byte_of(e[2][0])
+        nd = sym.norm_dom(d)
+        if isinstance(nd, tuple) and nd and nd[0] == "iter":
+            # `xs.iter().try_for_each(|_| write_u8(b))`: one byte per element of xs — the count is xs' length
+            return untyped(("len", nd)), byte_of(e[2][0])
     return None
 
 
